@@ -275,6 +275,23 @@ fn render(v: &Val, sh: &Shape) -> String {
     s
 }
 
+/// Exactly one line per case: control characters and Unicode line / paragraph separators (which
+/// some readers treat as line breaks) are written as `\u{..}`.
+pub fn one_line(s: &str) -> String {
+    if !s.chars().any(|c| c.is_control() || c == '\u{2028}' || c == '\u{2029}') {
+        return s.to_string();
+    }
+    let mut o = String::with_capacity(s.len() + 8);
+    for c in s.chars() {
+        if c.is_control() || c == '\u{2028}' || c == '\u{2029}' {
+            o.push_str(&format!("\\u{{{:x}}}", c as u32));
+        } else {
+            o.push(c);
+        }
+    }
+    o
+}
+
 pub fn err_line(e: &gluon::vm::Error) -> String {
     format!("error {}", e.to_string().replace('\n', " | "))
 }
@@ -740,13 +757,14 @@ fn main() {
         let line = c.line();
         let r = run_impl(&mut vm, c);
         let o = run_oracle(c);
+        let (line, r, o) = (one_line(&line), one_line(&r), one_line(&o));
         writeln!(model_in, "{}", line).unwrap();
         writeln!(impl_out, "{}", r).unwrap();
         writeln!(oracle_out, "{}", o).unwrap();
         writeln!(cases_f, "{}", line).unwrap();
         writeln!(fam_f, "{}", c.family()).unwrap();
         if let Some((key, what)) = property_failure(c, &r) {
-            writeln!(prop_f, "{}\t{}\t{}\t{}", c.family(), key, line, what.replace('\n', " ").replace('\t', " ")).unwrap();
+            writeln!(prop_f, "{}\t{}\t{}\t{}", c.family(), one_line(&key), one_line(&line), one_line(&what.replace('\t', " "))).unwrap();
             hist.add("property-failure");
         }
         *per_family.entry(c.family().to_string()).or_insert(0) += 1;
